@@ -242,6 +242,19 @@ type termBuilder struct {
 	inlRes map[types.Object]localDef // canonical rendering only: v, err := f() -> v is res(0, f())
 	depth int
 	fset  *token.FileSet
+	tsub  map[*types.TypeParam]types.Type // type arguments of the generic helper being interpreted
+}
+
+// typeOfExpr: the type an expression denotes, with the type parameters of an interpreted generic helper replaced by the
+// type arguments of the call at hand.
+func (b *termBuilder) typeOfExpr(e ast.Expr) types.Type {
+	t := b.info.TypeOf(e)
+	if tp, ok := t.(*types.TypeParam); ok && b.tsub != nil {
+		if a, has := b.tsub[tp]; has {
+			return a
+		}
+	}
+	return t
 }
 
 func pkgShort(p *types.Package) string {
@@ -418,7 +431,7 @@ func (b *termBuilder) term(e ast.Expr) *Term {
 		if x.Type == nil {
 			return mk("assert", "type", b.term(x.X))
 		}
-		return mk("assert", typeStr(b.info.TypeOf(x.Type)), b.term(x.X))
+		return mk("assert", typeStr(b.typeOfExpr(x.Type)), b.term(x.X))
 	case *ast.CompositeLit:
 		t := mk("lit", typeStr(b.info.TypeOf(x)))
 		for i, el := range x.Elts {
